@@ -112,6 +112,17 @@ def gen_seq(rng, n, alphabet, mix=None):
     return s, mix
 
 
+def wrap_args(rng, n):
+    """arguments that only a wrapped computation (i * 2, i * 4, i + 1, i + n, a cast to a narrower integer) maps back
+    into the structure: around 2^63, 2^62, 2^32, 2^31 and just below 2^64"""
+    out = set()
+    for base in (2 ** 63, 2 ** 62, 2 ** 32, 2 ** 31, 2 ** 64 - 1 - n, 2 ** 63 + 2 ** 62, 2 ** 33):
+        for off in (0, 1, n, max(n - 1, 0), rng.randrange(n + 1)):
+            if 0 <= base + off <= MAXU:
+                out.add(base + off)
+    return sorted(out)
+
+
 def tree_queries(c, rng, seq, width, family, sweep=True, nsyms=6, extra_ops=()):
     """checked queries over the whole argument domain"""
     n = len(seq)
@@ -140,6 +151,13 @@ def tree_queries(c, rng, seq, width, family, sweep=True, nsyms=6, extra_ops=()):
     c.add("Q getall" if sweep else "Q get %d" % (rng.randrange(n) if n else 0))
     c.add("Q get %d" % MAXU)
     c.add("Q get %d" % (n + 7))
+    wa = wrap_args(rng, n)
+    for a in rng.sample(wa, min(len(wa), 8)):
+        c.add("Q get %d" % a)
+    for s in sorted(syms)[:3]:
+        for a in rng.sample(wa, min(len(wa), 4)):
+            c.add("Q rank %d %d" % (s, a))
+            c.add("Q select %d %d" % (s, a))
     for s in sorted(syms):
         occ = seq.count(s)
         if sweep:
